@@ -196,7 +196,14 @@ MixQ == {Q([k |-> w, sym |-> sym, a |-> a]) : w \in {"atom", "anyOf", "allOf"}, 
         \cup {Q([k |-> "countq", sym |-> sym, q |-> Q(TRUEF), op |-> "gt", n |-> N(0)]) : sym \in MixSyms}
         \cup {Q([k |-> "isEmptyq", sym |-> <<"peers">>, q |-> Q([k |-> "isEmptyq", sym |-> sym, q |-> Q(TRUEF)])]) : sym \in MixSyms}
 
-SortSymQ == {[p |-> p, sort |-> so, skip |-> NoVal, limit |-> NoVal] : p \in PagePreds \cup {A1, A4}, so \in Sorts}
+\* a symbol and dotted paths that start with it, in one query (the head being public says nothing about the paths)
+BossNull == [k |-> "atom", sym |-> <<"boss">>, a |-> IsNull(TRUE)]
+BossS == [k |-> "atom", sym |-> <<"boss", "s">>, a |-> Cmp("eq", S(sA))]
+HeadQ == {Q([k |-> c, l |-> BossNull, r |-> BossS]) : c \in {"and", "or"}} \cup {Q([k |-> "and", l |-> BossS, r |-> BossNull])}
+         \cup {[p |-> BossNull, sort |-> <<[sym |-> <<"boss">>, asc |-> TRUE], [sym |-> <<"boss", "s">>, asc |-> FALSE]>>, skip |-> NoVal, limit |-> NoVal],
+               [p |-> TRUEF, sort |-> <<[sym |-> <<"boss">>, asc |-> TRUE], [sym |-> <<"boss", "n">>, asc |-> TRUE]>>, skip |-> NoVal, limit |-> NoVal],
+               [p |-> [k |-> "atom", sym |-> <<"tags", "k">>, a |-> IsNull(TRUE)], sort |-> <<[sym |-> <<"boss", "s">>, asc |-> TRUE]>>, skip |-> NoVal, limit |-> NoVal]}
+SortSymQ == {[p |-> p, sort |-> so, skip |-> NoVal, limit |-> NoVal] : p \in PagePreds \cup {A1, A4}, so \in Sorts} \cup HeadQ
 
 QueriesOf(m) == CASE m = "datasets" -> {Q(TRUEF)} [] m = "probe" -> ProbeQ [] m = "sortsyms" -> SortSymQ [] m = "mix" -> MixQ [] m = "scalar" -> ScalarQ [] m = "set" -> SetQ [] m = "bool" -> BoolQ [] m = "subq" -> SubQ [] m = "page" -> PageQ
 
